@@ -335,6 +335,7 @@ pub fn property() -> Property {
             "branch forcing is by start line and variable environment, not exhaustive over conditions",
             "starting execution at any line after the DEFs ran is a legitimate execution of the program",
         ],
+        fuzz: None,
         families,
         prelude: None,
         epilogue: None,
